@@ -188,6 +188,24 @@ func (tc *TypeChecker) CheckType(value interface{}, expectedType Type) error {
 		}
 	}
 
+	// TypesCompatible only compares kinds, so a value that got here through
+	// `T?` or a union member has not had its elements or fields looked at yet:
+	// an optional type accepts what its inner type accepts (null was accepted
+	// above), a union what one of its members accepts.
+	switch et := expectedType.(type) {
+	case OptionalType:
+		return tc.CheckType(value, et.InnerType)
+	case UnionType:
+		for _, member := range et.Types {
+			if tc.CheckType(value, member) == nil {
+				return nil
+			}
+		}
+		if len(et.Types) > 0 {
+			return fmt.Errorf("type mismatch: value matches no member of %s", tc.TypeToString(expectedType))
+		}
+	}
+
 	return nil
 }
 
